@@ -339,7 +339,7 @@ func (c *Conn) Read(p []byte) (int, error) {
 		// timeout
 		var err error
 		switch {
-		case !c.SerialMode && c.TimeoutErr != nil:
+		case c.TimeoutErr != nil && (!c.SerialMode || c.TOStyle == TimeoutDeadline):
 			err = c.TimeoutErr
 		case !c.SerialMode || c.TOStyle == TimeoutDeadline:
 			err = os.ErrDeadlineExceeded
